@@ -166,7 +166,21 @@ def fam_argv(seed, big):
             sc["setgid"] = g
         out.append(sc)
         i += 1
-    # NUL anywhere: rejected, nothing started
+    # the parent's real ids differ from its effective ones (a set-user-ID program, a daemon after setresuid(user, 0, 0)):
+    # the requested ids -- equal to the real ones or not -- become the child's real, effective and saved ids
+    if ids_ok:
+        for (u, g) in ((12345, 23456), (12345, None), (None, 23456), (12346, 23457), (None, None)):
+            for clone in (False, True):
+                sc = {"id": "a-idreal%d" % i, "class": "identity-real-differs", "argv": vargv(), "setpgid": False,
+                      "parent_ids": {"uid": [12345, 0, 0], "gid": [23456, 0, 0]}}
+                if clone:
+                    sc["clone_cfg"] = True
+                if u is not None:
+                    sc["setuid"] = u
+                if g is not None:
+                    sc["setgid"] = g
+                out.append(sc)
+                i += 1
     nul = [
         {"argv": vargv(b"a\0b")}, {"argv": [hx(VCHILD + "\0x")]}, {"argv": vargv(b"ok", b"\0")},
         {"argv": vargv(), "env": [[hx("A\0"), hx("1")]]}, {"argv": vargv(), "env": [[hx("A"), hx("1\0 2")]]},
@@ -183,7 +197,9 @@ def fam_argv(seed, big):
 WIDE = [255, 256, 512, 524, 4095, 65538]
 ERRNOS = {"pipe": [24, 23], "fcntl": [9, 24], "fork": [11, 12], "chdir": [13, 2, 20] + WIDE, "dup2": [9, 24, 4, 256],
           "sigmask": [22], "setuid": [1, 11, 512], "setgid": [1, 524], "setpgid": [1, 13, 3, 256],
-          "execve": [13, 2, 8, 7, 12, 26] + WIDE}
+          "execve": [13, 2, 8, 7, 12, 26] + WIDE,
+          # the parent's read of the launch-status channel: interrupted by a signal handler, or failing for good
+          "read": [4, 5]}
 
 
 def fam_faults(seed, big):
@@ -200,7 +216,7 @@ def fam_faults(seed, big):
         nfcntl = 4 + 2 * (npipes - 1)
         points = [("pipe", k, 0) for k in range(1, npipes + 1)] + [("fcntl", k, 0) for k in range(1, nfcntl + 1)] + \
                  [("fork", 1, 0), ("chdir", 1, 1), ("setuid", 1, 1), ("setgid", 1, 1),
-                  ("setpgid", 1, 1), ("execve", 1, 1)]
+                  ("setpgid", 1, 1), ("execve", 1, 1), ("read", 1, 0)]
         ndup = sum(1 for x in (a, b, c) if x != "none")
         points += [("dup2", k, 1) for k in range(1, ndup + 1)]
         for (kind, nth, side) in points:
